@@ -765,8 +765,9 @@ func c05Storage(r *core.Report, pk string) {
 	}
 }
 
-func c05Orientation(r *core.Report, pk string) {
-	const rule = "C05.R6"
+func c05Orientation(r *core.Report, pk string) { orientationRule(r, "C05.R6", pk) }
+
+func orientationRule(r *core.Report, rule string, pk string) {
 	p := r.Prog
 	seal := r.Anchor(rule, pk+".seal")
 	se := r.Anchor(rule, pk+".searchEytzinger")
